@@ -127,9 +127,17 @@ pub fn idiom_identity_try_into<'a>(s: &'a [u8]) -> (r: Result<&'a [u8], std::con
 pub axiom fn axiom_size_of_floats()
     ensures vstd::layout::size_of::<f32>() == 4, vstd::layout::size_of::<f64>() == 8;
 
+#[verifier::allow(undeclared_external_trait)]
 pub assume_specification<T, U, F: FnOnce(T) -> U> [Option::<T>::map_or] (o: Option<T>, default: U, f: F) -> (r: U)
     where F: std::marker::Destruct, U: std::marker::Destruct
     requires o is Some ==> f.requires((o->Some_0,)),
     ensures
         o is None ==> r == default,
         o is Some ==> f.ensures((o->Some_0,), r);
+
+// i32::rotate_right (re-proved against core by kani/std_idioms.rs::check_rotr_spec)
+pub open spec fn i32_rotr(x: i32, n: u32) -> i32 {
+    ((((x as u32) >> n) | ((x as u32) << ((32 - n) as u32))) as i32)
+}
+pub assume_specification [i32::rotate_right] (x: i32, n: u32) -> (r: i32)
+    ensures 0 < n < 32 ==> r == i32_rotr(x, n);
